@@ -267,8 +267,9 @@ pub fn run(ctx: &mut Ctx) {
                 // an unknown type carrying data that is well-formed content of a KNOWN type (a list of 16-bit
                 // values, a name list, ...): still Unknown / Grease with the data verbatim, whatever it looks like
                 let k = ((t as usize).wrapping_mul(7) + (t as usize >> 8)) % gen::EXT_GENERATORS;
-                for kk in [k, 6, 4, 18] {
-                    let shaped = gen::ext_variant(&mut rng, gen::TINY, kk);
+                // (three draws per shape, the last one with larger contents: detection must not hinge on one draw being non-empty)
+                for (kk, sz) in [(k, gen::TINY), (6, gen::TINY), (4, gen::TINY), (18, gen::TINY), (k, gen::TINY), (6, gen::TINY), (4, gen::TINY), (18, gen::TINY), (k, gen::SMALL), (6, gen::SMALL), (4, gen::SMALL), (18, gen::SMALL)] {
+                    let shaped = gen::ext_variant(&mut rng, sz, kk);
                     if matches!(shaped, AExt::Unknown(..) | AExt::Grease(..)) {
                         continue;
                     }
@@ -287,6 +288,41 @@ pub fn run(ctx: &mut Ctx) {
         }
     });
     ctx.mark_exhaustive("all 65536 extension types through the three dispatchers");
+
+    // ------------------------------------------------ endianness- and order-confused headers: the four header bytes of every known
+    // type at every natural fixed length 0..=64, in all 24 byte orders (so also the u32 byte swap and the two u16
+    // swaps). Where the permuted type is not itself a known type, the result is Unknown / Grease with that type and
+    // exactly the permuted length of data
+    ctx.floor("types.permuted-headers", 5_000);
+    ctx.sweep("permuted-known-headers", KNOWN_EXT_TYPES.len() as u64, |ctx, idx| {
+        let t0 = KNOWN_EXT_TYPES[idx as usize];
+        let mut seen = std::collections::HashSet::new();
+        for l0 in 0..=64u16 {
+            let h = [(t0 >> 8) as u8, t0 as u8, (l0 >> 8) as u8, l0 as u8];
+            for a in 0..4 {
+                for b in 0..4 {
+                    for c in 0..4 {
+                        for d in 0..4 {
+                            if a == b || a == c || a == d || b == c || b == d || c == d {
+                                continue;
+                            }
+                            let t = u16::from_be_bytes([h[a], h[b]]);
+                            let l = u16::from_be_bytes([h[c], h[d]]) as usize;
+                            if KNOWN_EXT_TYPES.contains(&t) || !seen.insert((t, l)) {
+                                continue;
+                            }
+                            let data = vec![0x03u8; l];
+                            let x = if is_grease(t) { AExt::Grease(t, data) } else { AExt::Unknown(t, data) };
+                            ctx.count("types.permuted-headers");
+                            for (dn, dd) in DISPATCHERS {
+                                judge_single(ctx, dn, dd, &x, &[]);
+                            }
+                        }
+                    }
+                }
+            }
+        }
+    });
 
     // ------------------------------------------------ known types x generated contents
     let n = ctx.tier.pick(48000, 720000);
